@@ -23,6 +23,8 @@ def monitors(ctx):
 
 def run(ctx):
     monitor.enable(*monitors(ctx))
+    from .. import w_suite
+    w_suite.maybe(ctx)      # thorough tier: the repository's own tests under this property's monitors
     ctx.floor('C08.merge', 300)
     ctx.floor('C08.embed', 300)
     ctx.floor('C08.mask', 300)
